@@ -318,3 +318,15 @@ func (db *DB) VerifSetManifestRewriteThreshold(n int) {
 	db.manifest.deletionsRewriteThreshold = n
 	db.manifest.appendLock.Unlock()
 }
+
+// VerifRewriteManifest runs the production MANIFEST rewrite (manifestFile.rewrite: write
+// MANIFEST-REWRITE, sync, rename over MANIFEST, sync the directory) now, under the same lock as
+// addChanges. In production it is triggered by the deletions threshold and ratio.
+func (db *DB) VerifRewriteManifest() error {
+	if db.manifest == nil {
+		return nil
+	}
+	db.manifest.appendLock.Lock()
+	defer db.manifest.appendLock.Unlock()
+	return db.manifest.rewrite()
+}
